@@ -265,3 +265,15 @@ def run(ctx, rep):
             ok = {v_ for _, v_ in srcs} == {k} and all('After' in e_ for e_, _ in srcs) and len(srcs) == 2
             rep.ob('R20.e', EXT, '%s ⇔ After(%s)' % (name_, want2[name_]), ok, None, None if ok else 'local `%s` is set on %s (expected the %s variant under After and IntervalOrAfter)' % (name_, sorted(srcs, key=str), want2[name_]))
     rep.ob('R20.e', EXT, 'After-mode flags found', found2 == 2, None, '%d flags' % found2)
+
+    # ------------------------------------------------------------ R20.f per-partition bookkeeping is keyed by the partition the message came from
+    rep.rule('R20.f', 'the per-partition bookkeeping of poll_next (last consumed offset: the replay filter; current offset) is keyed by the partition the yielded message came from: the current partition for a buffered message, the partition of the polled batch for the first message of a fresh batch (a stale key overwrites another partition\'s last consumed offset and the filter then drops its next message)', floor=7, analysis='A9 call-argument forms')
+    FRESH = 'FutureExt::poll_unpin(self.poll_future, cx)'
+    CUR = 'Atomic::load(self.current_partition_id, ORDERING)'
+    forms.check_call_args(ctx, rep, 'R20.f', {POLL_NEXT: {
+        'DashMap::get': ['self.last_consumed_offsets, ' + CUR, 'self.current_offsets, ' + CUR, 'self.current_offsets, %s.partition_id' % FRESH, 'self.last_consumed_offsets, %s.partition_id' % FRESH],
+        'DashMap::insert': ['self.last_consumed_offsets, %s, Atomic::new(VecDeque::pop_front(self.buffered_messages).offset)' % CUR,
+                            'self.current_offsets, %s.partition_id, Atomic::new(%s.current_offset)' % (FRESH, FRESH),
+                            're:^self\\.last_consumed_offsets, %s\\.partition_id, Atomic::new\\(Vec::remove\\(.*\\.messages, 0\\)\\.offset\\)$' % re.escape(FRESH)],
+    }}, skip_self=False, cd=2)
+
